@@ -34,7 +34,7 @@ type target struct {
 
 var targets = []target{
 	{
-		file: "pkg/segment/writer/metrics/wal/wal.go",
+		file:  "pkg/segment/writer/metrics/wal/wal.go",
 		funcs: set("NewWAL", "Append", "Write", "writeBlockToFile", "truncate", "DeleteWAL"),
 	},
 	{
